@@ -14,7 +14,7 @@ LEVEL = "model_checking"
 TECHNIQUE = "(a) breadth-first explicit-state search over constructor / encode / decode / discard histories over pairs and triples of command classes with a differential oracle (same operation alone); (b) preemption-bounded exhaustive enumeration of thread schedules at source-line granularity under a sys.settrace + semaphore-baton scheduler owning real threads"
 RULE = ("(a) pool of 10 classes chosen to collide (6/10/12/16-byte CDBs, inherited layout, constructors that raise after touching shared state, "
         "mutable arguments); operations new(X, 2 argument variants), new-invalid(X), X.unmarshall_cdb, X.marshall_cdb, repeat-marshal with the same "
-        "caller objects, deep copy of a live command (then modified), display helpers (print_cdb / print / repr) of a command, a caller-owned segment dictionary re-used after the caller changed its kind (also after a refused construction), first-use in 13 fresh processes (see C02), the same battery of builds and decodes in 6 interpreters differing only in PYTHONHASHSEED, two commands over one caller-owned buffer with the first discarded and garbage-collected (WRITE, WRITE SAME, EXTENDED COPY inline data, ATA PASS-THROUGH 12/16 x all 256 ATA command codes x both directions), del; BFS with de-duplication on a digest of class-level state + live objects, all pairs to depth 4 (thorough 5) and all "
+        "caller objects, deep copy of a live command (then modified), display helpers (print_cdb / print / repr) of a command, a caller-owned segment dictionary re-used after the caller changed its kind (also after a refused construction), first-use in 13 fresh processes (see C02), EXTENDED COPY segment kinds A, B, A in fresh processes (6 kinds x flag keys, both classes: bytes or refusal of A unchanged), the same battery of builds and decodes in 6 interpreters differing only in PYTHONHASHSEED, two commands over one caller-owned buffer with the first discarded and garbage-collected (WRITE, WRITE SAME, EXTENDED COPY inline data, ATA PASS-THROUGH 12/16 x all 256 ATA command codes x both directions), del; BFS with de-duplication on a digest of class-level state + live objects, all pairs to depth 4 (thorough 5) and all "
         "triples to depth 3 (thorough 4); in every state every live object and every class's codec is compared with what the same call yields "
         "alone; decode histories A,B,A over every ordered pair of 20 response kinds in a fresh process (result for A identical before and after B). (b) 2 threads (thorough: also 3), each 'c=X(..); bytes(c.cdb); X.unmarshall_cdb; X.marshall_cdb; len(c.datain)', every ordered "
         "pair of pool classes, plus decoder threads (standard INQUIRY, VPD 83h, MODE SENSE(10), REPORT LUNS, RTPG, READ FULL STATUS, READ ELEMENT STATUS, sense) in all ordered pairs, all schedules with at most 1 preemption at every traced source line of the library (thorough: also all schedules with at most 2 preemptions at function-entry granularity for the pairs over 5 classes of different CDB lengths, and 2 preemptions at "
@@ -92,6 +92,7 @@ def partitions(tier):
     from vf.props import c02
     parts += [["first", i] for i in range(c02.N_FIRST)]
     parts += [["discard"], ["hashseed"]]
+    parts += [["segstar", ver, kind, ek] for ver in (4, 5) for kind in SEG_KINDS for ek in ("", "dc", "cat")]
     decs = list(THREAD_DECODERS)
     dq = decs if tier != "quick" else ["dec:inquiry_std", "dec:vpd83", "dec:rtpg", "dec:sense", "dec:prfull"]
     for a in dq:
@@ -550,6 +551,44 @@ def run_hashseed():
     return out, len(ref) * len(res)
 
 
+SEG_KINDS = (0x00, 0x01, 0x02, 0x0B, 0x0C, 0x0D)
+
+
+def seg_outcome(ver, kind, extra):
+    """build an EXTENDED COPY with one segment descriptor of the given kind (freshly made, equal arguments every time)"""
+    name = "ExtendedCopy%d" % ver
+    cls = CS.get_class(name)
+    src, dst = ("source_target_descriptor_id", "destination_target_descriptor_id") if ver == 4 else ("source_cscd_descriptor_id", "destination_cscd_descriptor_id")
+    seg = {"descriptor_type_code": kind, src: 1, dst: 2, "block_device_number_of_blocks": 9}
+    if kind in (0x02, 0x0D):
+        seg.update({"source_block_device_logical_block_address": 3, "destination_block_device_logical_block_address": 4})
+    else:
+        seg.update({"stream_device_transfer_length": 5, "block_device_logical_block_address": 6})
+    seg.update(extra)
+    try:
+        c = cls(opcode_for(name), segment_descriptor_list=[seg])
+        return ("built", bytes(c.cdb).hex(), bytes(c.dataout).hex())
+    except Exception as e:   # noqa: BLE001
+        return ("refused", type(e).__name__)
+
+
+def run_segstar(ver, kind, extra_key):
+    """in a process where no EXTENDED COPY was built yet: command A (one segment kind, optionally carrying a flag key), then for every
+    other kind B: build B, build A again - A's outcome (bytes, or the refusal) never changes"""
+    extra = {extra_key: 1} if extra_key else {}
+    ref = seg_outcome(ver, kind, extra)
+    out = []
+    for kb in SEG_KINDS:
+        for eb in ({}, {"dc": 1}, {"cat": 1}, {"pad": 1}):
+            seg_outcome(ver, kb, eb)
+            again = seg_outcome(ver, kind, extra)
+            if again != ref:
+                out.append(("segment_history/ExtendedCopy%d" % ver, "ExtendedCopy%d with a segment of kind %#04x%s: %r at first, %r after a command with a segment of kind %#04x %r was built"
+                            % (ver, kind, " and key %s" % extra_key if extra_key else "", ref[:2], again[:2], kb, eb)))
+                return out
+    return out
+
+
 def discard_cases():
     out = []
     for name in ("Write10", "Write12", "Write16", "WriteSame10", "WriteSame16"):
@@ -602,6 +641,8 @@ def run_discard(case):
 
 
 def run_case(case):
+    if case[0] == "segstar":
+        return run_segstar(*case[1:])
     if case[0] == "hashseed":
         return run_hashseed()[0]
     if case[0] == "discard":
@@ -640,6 +681,16 @@ MAXTASKS = 1      # fresh forked worker per partition (the decode histories need
 def run_partition(part, tier, seed):
     acc = Acc(seed)
     b = bounds(tier)
+    if part[0] == "segstar":
+        case = list(part)
+        acc.case(case, nontrivial=True, key=tuple(case))
+        v = run_segstar(*part[1:])
+        acc.transitions += 1 + 2 * len(SEG_KINDS) * 4
+        acc.traces += 1
+        for k, w in v:
+            acc.violation(k, w, case)
+        acc.outcome((tuple(case), tuple(k for k, _ in v)))
+        return acc
     if part[0] == "hashseed":
         case = ["hashseed"]
         acc.case(case, nontrivial=True, key="hashseed")
